@@ -179,7 +179,8 @@ fn sched_worker(rx: Receiver<Cmd>, tx: Sender<Value>) {
                 let e2 = Decimal::new_raw(35, 1).mul_rounded(Decimal::new_raw(10, 1), 0).coefficient(); // 3.5
                 let f = (Decimal::new_raw(5, 10) * Decimal::new_raw(5, 9)).coefficient(); // 2.5e-18 -> 18 digits
                 let g = format!("{:.0}", Decimal::new_raw(65, 1));                 // 6.5
-                tx.send(json!([a, b, c, d, e2, f, g.parse::<i64>().unwrap_or(99)])).unwrap();
+                let h = Decimal::new_raw(27, 1).round(0).coefficient();           // 2.7
+                tx.send(json!([a, b, c, d, e2, f, g.parse::<i64>().unwrap_or(99), h])).unwrap();
             }
             Cmd::Spawn(crx, ctx) => {
                 children.push(std::thread::spawn(move || sched_worker(crx, ctx)));
